@@ -135,7 +135,9 @@ func buildPlan() []planItem {
 	return plan
 }
 
-func isBad(kind string) bool { return len(kind) > 3 && (kind[:4] == "bad:" || (len(kind) > 8 && kind[:9] == "badgroup:")) }
+func isBad(kind string) bool {
+	return len(kind) > 3 && (kind[:4] == "bad:" || (len(kind) > 8 && kind[:9] == "badgroup:"))
+}
 
 // c29ctx carries one exchange.
 type c29ctx struct {
@@ -370,7 +372,7 @@ func resH(r sideResult) []byte {
 	return r.res.H
 }
 
-// stableKind strips random parts from kind names used in violation keys.
+// stableKind is the kind name used in violation keys (kinds carry no random parts).
 func stableKind(k string) string { return k }
 
 func countKShape(m *mon.M, fam kh.Family, k []byte) {
@@ -380,8 +382,6 @@ func countKShape(m *mon.M, fam kh.Family, k []byte) {
 	if k[4] == 0 {
 		m.Count("k_mpint_zero_padded(top bit set)", 1)
 	}
-	full := map[kh.Family]bool{}
-	_ = full
 }
 
 // hashFor computes the reference hash for an encoded-K candidate list.
@@ -478,10 +478,13 @@ func (c *c29ctx) runDH() {
 				if isBad(kind) {
 					groupExp = expReject
 				}
-				// a group outside what the client itself requested is only "bad"
-				// if it really is outside [min,max]
-				if kind == "badgroup:1024" && uint32(p.BitLen()) >= reqMin {
-					groupExp = expEither
+				// a group size is "bad" only relative to what the client itself
+				// requested: outside [min,max]
+				switch kind {
+				case "badgroup:1024", "badgroup:2047bits", "badgroup:8193bits":
+					if uint32(p.BitLen()) >= reqMin && uint32(p.BitLen()) <= reqMax {
+						groupExp = expEither
+					}
 				}
 			}
 			c.fp.send(append([]byte{31}, append(kh.Mpint(p), kh.Mpint(g)...)...))
@@ -606,6 +609,10 @@ func (c *c29ctx) runDH() {
 			m.Violation("gex-server-sends-unsafe-generator", c.witness(nil))
 			return
 		}
+	}
+	if valueKind == "p-2" && g.Cmp(big.NewInt(2)) != 0 {
+		m.Count("skipped_p-2_generator_not_2", 1)
+		return
 	}
 	e, exp, secret, nonMin := dhValue(c.r, valueKind, p, g, nil)
 	initPkt := append([]byte{initType}, mpintField(e, nonMin)...)
@@ -1248,12 +1255,7 @@ func (c *c29ctx) runHybrid() {
 	c.fp.send(initPkt)
 	pk, ok := c.fp.recv()
 	if !ok {
-		e := exp
-		if e == expAnyK {
-			// a key that passes the FIPS 203 input check must be accepted
-			e = expAccept
-		}
-		c.judge(c.fp.waitDone(), e, false, nil, nil, nil, "sha256")
+		c.judge(c.fp.waitDone(), exp, false, nil, nil, nil, "sha256")
 		return
 	}
 	rd := kh.Reader{B: pk}
@@ -1277,7 +1279,7 @@ func (c *c29ctx) runHybrid() {
 			c.checkServerSigned(ks, sig, res.res.H)
 			m.Count("mlkem_key_with_coefficient_q-1_accepted", 1)
 		} else {
-			c.judge(res, expAccept, true, nil, ks, sig, "sha256")
+			c.judge(res, exp, true, nil, ks, sig, "sha256")
 		}
 		return
 	}
